@@ -677,7 +677,7 @@ def shrink_case(case):
 class PoolBoundsStream(Stream):
     name = "bounds"
     coq_header = HEADER
-    n_quick = 600
+    n_quick = 500
     n_thorough = 10000
 
     def gen(self, rng, tier):
@@ -886,6 +886,9 @@ class FloatSumStream(Stream):
 #
 # Case (JSON): {"groups": [[[battery ids], [inverter ids]], ...], "init": {"<cid>": [V, V, V, V]},
 #               "script": [OP, ...], "deltas": [[n, d], ...]}
+#   "consumers": n = BatteryPool instances sharing the one reference store, {"op": "request", "who": k} names one;
+#   "tz": None | ["offset", minutes] | ["zone", name] = zone of the component data timestamps (None: fixed 2020 UTC
+#   stamps; otherwise the current instant expressed in that aware non-UTC zone); "producer": "fresh" | "mutate"
 #   OP = {"op": "status", "working": [ids]} | {"op": "request"} | {"op": "data", "id": cid, "b": [V, V, V, V]}
 #      | {"op": "burst", "gap": [n, d], "ops": [OP, ...]}
 #      | {"op": "drift", "id": cid, "k": 0..3, "rel": [n, d], "steps": N}   (bound k of one component moves from v0 to
@@ -912,7 +915,7 @@ def _stream_imports():
 
 def stream_snapshots(case):
     """Independent bookkeeping: working set, latest data and whether the stream is requested, per step."""
-    st = {"working": set(), "req": False}
+    st = {"working": set(), "req": set()}
     data = {int(k): list(v) for k, v in case["init"].items()}
     allb = {b for g in case["groups"] for b in g[0]}
 
@@ -921,7 +924,7 @@ def stream_snapshots(case):
         if k == "status":
             st["working"] = set(op["working"]) & allb
         elif k == "request":
-            st["req"] = True
+            st["req"].add(op.get("who", 0))
         elif k == "data":
             data[op["id"]] = list(op["b"])
         elif k == "drift":
@@ -934,7 +937,7 @@ def stream_snapshots(case):
     out = []
     for op in case["script"]:
         apply(op)
-        out.append({"working": sorted(st["working"]), "requested": st["req"], "data": {str(c): list(v) for c, v in data.items()},
+        out.append({"working": sorted(st["working"]), "requested": sorted(st["req"]), "data": {str(c): list(v) for c, v in data.items()},
                     "groups": [g for g in case["groups"] if set(g[0]) & st["working"]]})
     return out
 
@@ -981,7 +984,18 @@ def run_stream(case):
             batteries_status_receiver=status.new_receiver(limit=1), power_manager_requests_sender=unused.new_sender(),
             power_manager_bounds_subscription_sender=unused.new_sender(), power_distribution_results_fetcher=unused,
             min_update_interval=J.timedelta(seconds=0.2), batteries_id=set(bats))
-        pool = J.BatteryPool(pool_ref_store=store, name="verif", priority=5, set_operating_point=False)
+        pools = [J.BatteryPool(pool_ref_store=store, name=f"verif{k}", priority=k + 1, set_operating_point=False)
+                 for k in range(case.get("consumers", 1))]
+        tzspec = case.get("tz")
+        if tzspec is None:
+            stamp = lambda: BASE_TS_S + J.timedelta(seconds=loop.time())
+        else:
+            if tzspec[0] == "offset":
+                tz = timezone(J.timedelta(minutes=tzspec[1]))
+            else:
+                from zoneinfo import ZoneInfo
+                tz = ZoneInfo(tzspec[1])
+            stamp = lambda: datetime.now(tz=timezone.utc).astimezone(tz)
         # the manager's real data path off the same API
         mgr = I.bm.BatteryManager.__new__(I.bm.BatteryManager)
         maps = I.bm._get_battery_inverter_mappings(set(bats))
@@ -997,7 +1011,7 @@ def run_stream(case):
 
         async def send_now(c):
             v = [num(x) for x in cur[c]]
-            ts = BASE_TS_S + J.timedelta(seconds=loop.time())
+            ts = stamp()
             if c in bats:
                 await senders[c].send(J.BatteryData(
                     component_id=c, timestamp=ts, soc=X(50), soc_lower_bound=X(0), soc_upper_bound=X(100), capacity=X(1),
@@ -1018,10 +1032,11 @@ def run_stream(case):
                     await send_now(c)
                 await aio.sleep(S_PERIOD)
 
-        log = []
+        logs = {}
         tasks = [aio.create_task(streamer())]
 
-        async def collect(rx):
+        async def collect(who, rx):
+            log = logs[who]
             async for sb in rx:
                 if sb.inclusion_bounds is None or sb.exclusion_bounds is None:
                     log.append((None, sb))
@@ -1044,8 +1059,10 @@ def run_stream(case):
                 else:
                     await status_tx.send(J.ComponentPoolStatus(working=set(op["working"]), uncertain=set()))
             elif k == "request":
-                if len(tasks) == 1:
-                    tasks.append(aio.create_task(collect(pool._system_power_bounds.new_receiver())))
+                who = op.get("who", 0)
+                if who not in logs:
+                    logs[who] = []
+                    tasks.append(aio.create_task(collect(who, pools[who]._system_power_bounds.new_receiver())))
             elif k == "data":
                 cur[op["id"]] = list(op["b"])
                 if op.get("now", True):
@@ -1068,17 +1085,20 @@ def run_stream(case):
             for op in case["script"]:
                 await do(op)
                 await aio.sleep(S_SETTLE)
-                cp = {"requested": len(tasks) > 1}
-                if cp["requested"]:
-                    cp["adv"] = log[-1][0] if log else None
-                    cp["emitted"] = len(log)
+                cp = {"requested": sorted(logs), "consumers": {}}
                 pairs = mgr._get_components_data(set(mgr._bat_invs_map))
+                enf = None
                 if pairs:
                     eb = mgr._get_bounds(pairs)
                     enf = [tofr(eb.inclusion_lower), tofr(eb.exclusion_lower), tofr(eb.exclusion_upper), tofr(eb.inclusion_upper)]
                     cp["enf"] = [enc(v) for v in enf]
-                    if cp.get("adv") is not None:
-                        adv = [fr(v) for v in cp["adv"]]
+                else:
+                    cp["enf"] = None
+                for who in sorted(logs):
+                    log = logs[who]
+                    cc = {"adv": log[-1][0] if log else None, "emitted": len(log)}
+                    if enf is not None and cc["adv"] is not None:
+                        adv = [fr(v) for v in cc["adv"]]
                         sb = log[-1][1]
                         probes = []
                         for p in probe_values({"deltas": case.get("deltas", [[1, 1000], [1, 1]])}, adv, enf):
@@ -1088,9 +1108,8 @@ def run_stream(case):
                                 r = mgr._check_request(I.Request(power=P, component_ids=set(mgr._bat_invs_map), adjust_power=adj), pairs)
                                 res[name] = "ok" if r is None else ("oob" if isinstance(r, I.OutOfBounds) else "error")
                             probes.append(res)
-                        cp["probes"] = probes
-                else:
-                    cp["enf"] = None
+                        cc["probes"] = probes
+                    cp["consumers"][str(who)] = cc
                 checkpoints.append(cp)
         finally:
             for t in tasks:
@@ -1145,9 +1164,13 @@ class BoundsStreamStream(Stream):
     n_thorough = 2000
 
     def gen(self, rng, tier):
-        for c in stream_boundary_cases():
+        for n, c in enumerate(stream_boundary_cases()):
             yield c
-            yield {**c, "producer": "mutate"}
+            if n == 0:
+                yield {**c, "producer": "mutate"}
+                yield {**c, "tz": ["offset", 120]}
+                yield {**c, "tz": ["zone", "Asia/Kolkata"], "producer": "mutate"}
+                yield {**c, "consumers": 2, "script": c["script"][:2] + [{"op": "request", "who": 1}] + c["script"][2:]}
         for _ in range(self.n_quick if tier == "quick" else self.n_thorough):
             yield gen_stream_case(rng)
 
@@ -1165,17 +1188,19 @@ class BoundsStreamStream(Stream):
             pbq = lambda c: "(mkPB " + " ".join(cQ(fr(x)) for x in snap["data"][str(c)]) + ")"
             cgs = "[" + "; ".join("([" + "; ".join(pbq(b) for b in g[0]) + "], [" + "; ".join(pbq(i) for i in g[1]) + "])"
                                   for g in snap["groups"]) + "]"
-            if cp["requested"]:
-                eadv = "(Some None)" if cp.get("adv") is None else f"(Some (Some {c_tuple4(cp['adv'])}))"
-            else:
-                eadv = "None"
             eenf = "None" if cp.get("enf") is None else f"(Some {c_tuple4(cp['enf'])})"
-            if any(pr["adj"] == "error" or pr["noadj"] == "error" for pr in cp.get("probes", [])):
-                return None
-            probes = "[" + "; ".join(
-                f"({cQ(fr(pr['p']))}, ({cbool(bool(pr['contains']))}, ({cbool(pr['adj'] == 'ok')}, {cbool(pr['noadj'] == 'ok')})))"
-                for pr in cp.get("probes", [])) + "]"
-            items.append(f"({cgs}, {eadv}, {eenf}, {probes})")
+            consumers = cp["consumers"] or {"-": None}
+            for who, cc in consumers.items():
+                if cc is None:
+                    items.append(f"({cgs}, None, {eenf}, [])")
+                    continue
+                eadv = "(Some None)" if cc.get("adv") is None else f"(Some (Some {c_tuple4(cc['adv'])}))"
+                if any(pr["adj"] == "error" or pr["noadj"] == "error" for pr in cc.get("probes", [])):
+                    return None
+                probes = "[" + "; ".join(
+                    f"({cQ(fr(pr['p']))}, ({cbool(bool(pr['contains']))}, ({cbool(pr['adj'] == 'ok')}, {cbool(pr['noadj'] == 'ok')})))"
+                    for pr in cc.get("probes", [])) + "]"
+                items.append(f"({cgs}, {eadv}, {eenf}, {probes})")
         return "[" + "; ".join(items) + "]"
 
     def oracle(self, case, obs):
@@ -1189,38 +1214,40 @@ class BoundsStreamStream(Stream):
             if cp.get("enf") is not None and [fr(v) for v in cp["enf"]] != senf:
                 hit(f"spec: {where} the enforced bounds {[str(fr(v)) for v in cp['enf']]} differ from the documented aggregation "
                     f"{None if senf is None else [str(v) for v in senf]} of the working sets {snap['groups']}")
-            if not cp["requested"]:
-                continue
-            gadv = None if cp.get("adv") is None else [fr(v) for v in cp["adv"]]
-            if gadv != sadv:
-                hit(f"spec: {where} the latest streamed bounds {None if gadv is None else [str(v) for v in gadv]} differ from the "
-                    f"documented aggregation {None if sadv is None else [str(v) for v in sadv]} of the latest data of the working sets {snap['groups']}")
-            if cp.get("enf") is None:
-                if cp.get("adv") is not None and not snap["groups"]:
-                    hit(f"stream: {where} no battery works but the pool still streams bounds {[str(fr(v)) for v in cp['adv']]}")
-                continue
-            enf = [fr(v) for v in cp["enf"]]
-            if cp.get("adv") is None:
-                hit(f"stream: {where} the manager enforces {[str(v) for v in enf]} but the pool's latest streamed bounds are None")
-                continue
-            il, el, eu, iu = adv = [fr(v) for v in cp["adv"]]
-            if (il, iu) != (enf[0], enf[3]):
-                hit(f"stream: {where} the latest streamed inclusion bounds ({il}, {iu}) differ from the enforced "
-                    f"({enf[0]}, {enf[3]}) for the same latest data")
-            if not (enf[2] <= eu and el <= enf[1]):
-                hit(f"stream: {where} the enforced exclusion bounds ({enf[1]}, {enf[2]}) are not inside the latest streamed ({el}, {eu})")
-            for pr in cp.get("probes", []):
-                p = fr(pr["p"])
-                if (il <= p <= iu and (p <= el or p >= eu)) or pr["contains"]:
-                    for mode in ("adj", "noadj"):
-                        if pr[mode] != "ok":
-                            hit(f"stream: {where} power {p} is inside the latest streamed bounds incl=({il}, {iu}) excl=({el}, {eu}) "
-                                f"but _check_request(adjust_power={mode == 'adj'}) answered {pr[mode]} "
-                                f"(enforced {tuple(str(v) for v in enf)})")
+            if sorted(int(k) for k in cp["consumers"]) != snap["requested"]:
+                hit(f"stream: {where} consumers observed {sorted(cp['consumers'])} but requested {snap['requested']}")
+            for who, cc in sorted(cp["consumers"].items()):
+                wh = f"{where} consumer {who}:"
+                gadv = None if cc.get("adv") is None else [fr(v) for v in cc["adv"]]
+                if gadv != sadv:
+                    hit(f"spec: {wh} the latest streamed bounds {None if gadv is None else [str(v) for v in gadv]} differ from the "
+                        f"documented aggregation {None if sadv is None else [str(v) for v in sadv]} of the latest data of the working sets {snap['groups']}")
+                if cp.get("enf") is None:
+                    if gadv is not None and not snap["groups"]:
+                        hit(f"stream: {wh} no battery works but the pool still streams bounds {[str(v) for v in gadv]}")
+                    continue
+                enf = [fr(v) for v in cp["enf"]]
+                if gadv is None:
+                    hit(f"stream: {wh} the manager enforces {[str(v) for v in enf]} but the pool's latest streamed bounds are None")
+                    continue
+                il, el, eu, iu = gadv
+                if (il, iu) != (enf[0], enf[3]):
+                    hit(f"stream: {wh} the latest streamed inclusion bounds ({il}, {iu}) differ from the enforced "
+                        f"({enf[0]}, {enf[3]}) for the same latest data")
+                if not (enf[2] <= eu and el <= enf[1]):
+                    hit(f"stream: {wh} the enforced exclusion bounds ({enf[1]}, {enf[2]}) are not inside the latest streamed ({el}, {eu})")
+                for pr in cc.get("probes", []):
+                    p = fr(pr["p"])
+                    if (il <= p <= iu and (p <= el or p >= eu)) or pr["contains"]:
+                        for mode in ("adj", "noadj"):
+                            if pr[mode] != "ok":
+                                hit(f"stream: {wh} power {p} is inside the latest streamed bounds incl=({il}, {iu}) excl=({el}, {eu}) "
+                                    f"but _check_request(adjust_power={mode == 'adj'}) answered {pr[mode]} "
+                                    f"(enforced {tuple(str(v) for v in enf)})")
         return out
 
     def key(self, case, obs):
-        if "error" in obs or not any(cp.get("adv") for cp in obs["checkpoints"]):
+        if "error" in obs or not any(cc.get("adv") for cp in obs["checkpoints"] for cc in cp["consumers"].values()):
             return None
         return json.dumps(case, sort_keys=True)
 
@@ -1253,8 +1280,12 @@ class BoundsStreamStream(Stream):
                 else:
                     out.append("data_change_on_inverter")
         for cp in obs["checkpoints"]:
-            if cp["requested"]:
-                out.append("checkpoint_with_bounds" if cp.get("adv") else "checkpoint_without_bounds")
+            for cc in cp["consumers"].values():
+                out.append("checkpoint_with_bounds" if cc.get("adv") else "checkpoint_without_bounds")
+        out.append(f"consumers={case.get('consumers', 1)}")
+        tzs = case.get("tz")
+        out.append("timestamps=utc_2020" if tzs is None else (f"timestamps={tzs[1]}" if tzs[0] == "zone" else
+                                                              f"timestamps=offset_{'east' if tzs[1] > 0 else 'west'}"))
         return out
 
     def shrink(self, case):
@@ -1311,7 +1342,18 @@ def gen_stream_case(rng):
         rel = rng.choice([F(1, 10 ** 7), F(1, 2 * 10 ** 6), F(9, 10 ** 7), F(1, 10 ** 5), F(1, 10 ** 4)]) * rng.choice([1, -1, -1])
         script.append({"op": "drift", "id": rng.choice(comps if rng.random() < 0.3 else bats), "k": rng.randrange(4),
                        "rel": enc(rel), "steps": steps})
+    consumers = rng.choice([1, 1, 2, 3])
+    if consumers > 1:
+        for k in rng.sample(range(1, consumers), consumers - 1):
+            script.insert(rng.randint(0, len(script)), {"op": "request", "who": k})
+        script.append({"op": "status", "working": subset()})
+    r = rng.random()
+    tz = None if r < 0.45 else (["offset", rng.choice([120, 60, 330, 765, -300, -480])] if r < 0.8
+                                else ["zone", rng.choice(["Europe/Berlin", "Asia/Kolkata", "America/New_York"])])
+    if tz is not None:
+        script.append({"op": "data", "id": rng.choice(bats), "b": gen_bounds(rng, grid)})
     return {"groups": groups, "init": init, "script": script, "producer": rng.choice(["fresh", "mutate", "mutate"]),
+            "consumers": consumers, "tz": tz,
             "deltas": [enc(rng.choice([F(1, 1000), F(1, 10 ** 6)])), enc(rng.choice([F(1), F(17)]))]}
 
 
